@@ -208,6 +208,28 @@ func genC06(t *rapid.T) AxisCase {
 			steps = append(steps[:pos], append([]Step{{T: "abs", Sub: "Touchpad", Code: a.Code, Val: r}}, steps[pos:]...)...)
 		}
 	}
+	// a second event node with the SAME name (a twin adapter: the configuration cannot tell the two apart) that reports its own
+	// range for the axis; it is heard after the first one, and its positions are positions within its own range
+	if rapid.IntRange(0, 7).Draw(t, "twinNode") == 0 {
+		rg2 := rapid.SampledFrom(axisRanges).Draw(t, "twinRange")
+		d.TwinNodes = []string{""}
+		d.TwinRanges = []TwinRange{{Sub: "", Code: a.Code, Min: rg2.Min, Max: rg2.Max}}
+		b := a
+		b.Min, b.Max = rg2.Min, rg2.Max
+		interB := interestingRaws(&b, dz)
+		for k := rapid.IntRange(2, 40).Draw(t, "twinEvents"); k > 0; k-- {
+			var r int32
+			switch rapid.IntRange(0, 3).Draw(t, "twinKind") {
+			case 0:
+				r = rapid.SampledFrom([]int32{b.Min, b.Max}).Draw(t, "twinEndStop")
+			case 1:
+				r = interB[rapid.IntRange(0, len(interB)-1).Draw(t, "twinIdx")]
+			default:
+				r = int32(rapid.Int64Range(int64(b.Min), int64(b.Max)).Draw(t, "twinRaw"))
+			}
+			steps = append(steps, Step{T: "abs", Sub: "", Node: 1, Code: a.Code, Val: r})
+		}
+	}
 	// further mappings that differ in their deadzones only, and mapping_up / mapping_down taps and pair resets between the moves
 	if rapid.IntRange(0, 3).Draw(t, "moreMappings") == 0 {
 		d.Actions = append(d.Actions, ActionDef{Code: 59, Action: "mapping_up"}, ActionDef{Code: 60, Action: "mapping_down"})
@@ -431,6 +453,38 @@ func genC08(t *rapid.T) AxisCase {
 			}
 			m.Axes = append(m.Axes, b)
 		}
+	}
+	// further mappings in which the same axes emulate keys with the same shaping but other notes, a direction more or less,
+	// other channel offsets; mapping_up / mapping_down are tapped between the positions like the other actions (C08's
+	// quantifier names octave/semitone/channel actions; the lifecycle it states is unconditional, and the Note Off has to
+	// match the Note On that was sent whatever the configuration says by then)
+	if rapid.IntRange(0, 3).Draw(t, "moreMappings") == 0 {
+		d.Actions = append(d.Actions, ActionDef{Code: 65, Action: "mapping_up"}, ActionDef{Code: 66, Action: "mapping_down"})
+		base := d.Mappings[0]
+		for k := rapid.IntRange(1, 2).Draw(t, "extraMappings"); k > 0; k-- {
+			m2 := MappingDef{Name: []string{"C", "B"}[k-1], AnalogSubs: append([]AnalogSub{}, base.AnalogSubs...)}
+			for _, ax := range base.Axes {
+				switch rapid.IntRange(0, 3).Draw(t, "axisInOtherMapping") {
+				case 0: // a direction more or less
+					if ax.NoteNeg != nil {
+						ax.NoteNeg = nil
+					} else {
+						ax.NoteNeg = intp((*ax.Note + 7) % 128)
+					}
+				case 1: // other notes
+					ax.Note = intp((*ax.Note + 5) % 128)
+					if ax.NoteNeg != nil && *ax.NoteNeg == *ax.Note {
+						ax.NoteNeg = intp((*ax.NoteNeg + 1) % 128)
+					}
+				case 2: // other channels
+					ax.Off = intp(rapid.SampledFrom([]int{0, 2, 15}).Draw(t, "offOther"))
+					ax.OffNeg = nil
+				}
+				m2.Axes = append(m2.Axes, ax)
+			}
+			d.Mappings = append(d.Mappings, m2)
+		}
+		m = &d.Mappings[0]
 	}
 	nAll := len(m.Axes)
 	n := rapid.IntRange(1, 40).Draw(t, "len")
